@@ -534,7 +534,9 @@ func runC12(c *ctx) {
 	// only small-key cases are re-evaluated with vm_compute (cases.v); real-size operands are far too slow there
 	c.m.MaxLogSize = 420
 	if c.replay != "" {
-		c12Replay_(c)
+		if !c.c12MultiReplay() { // validators called with several values: c12_multi.go
+			c12Replay_(c)
+		}
 		return
 	}
 	g := &c12Gen{c: c, r: c.res.Rng}
@@ -592,6 +594,7 @@ func runC12(c *ctx) {
 	g.flush()
 	g.batching = false
 	lap(fmt.Sprintf("real keys and MtA (%d cases)", nreal))
+	g.multiSuite(append(append([]*c12Key{micro}, small...), real...), lv(1, 3)) // c12_multi.go: validators called with several values
 	var ks []string
 	for k := range c12Spent {
 		ks = append(ks, k)
